@@ -21,6 +21,7 @@ import (
 	"fmt"
 	"go/types"
 	"strings"
+	"sync"
 
 	"golang.org/x/tools/go/ssa"
 )
@@ -238,8 +239,15 @@ func typeKey(t types.Type) string {
 	if t == nil {
 		return "<nil>"
 	}
-	return types.TypeString(t, nil)
+	if k, ok := typeKeyCache.Load(t); ok {
+		return k.(string)
+	}
+	k := types.TypeString(t, nil)
+	typeKeyCache.Store(t, k)
+	return k
 }
+
+var typeKeyCache sync.Map // types.Type -> string
 
 // hashKey returns a string key for a fully concrete value; ok=false if the
 // value contains symbolic parts.
